@@ -140,3 +140,4 @@ mod c02_misc;
 mod c02_archive_footer;
 #[cfg(kani)]
 mod c08_manifests;
+#[cfg(kani)] mod zz_probe;
